@@ -943,8 +943,12 @@ int main()
       // ---------------- end-to-end
       if (t.size() == 2 && t[0] == "e2e" && t[1] == "start") return E.start(routes, dflt);
       if (t.size() == 2 && t[0] == "e2e" && t[1] == "stop") { E.stop(); return "ok"; }
-      if (t.size() == 4 && t[0] == "e2e" && t[1] == "restart" && vh::parseNat(t[2], n) && vh::ofHex(t[3], d))
+      if ((t.size() == 4 || t.size() == 5) && t[0] == "e2e" && t[1] == "restart" && vh::parseNat(t[2], n) && vh::ofHex(t[3], d))
       {
+        // optional 5th token: how many requests of `d` must still be QUEUED in the pool (all workers busy) when stop() is called — the scenario's
+        // precondition; if the pool's size ever changes the op says so instead of silently testing less
+        unsigned long long minQueued = 0;
+        if (t.size() == 5 && !vh::parseNat(t[4], minQueued)) return "bad-op";
         // client A sends `d` (its handler outlives stop()'s drain wait); stop(), then start() on the SAME server object; client B connects,
         // sends nothing and listens for n ms: whatever arrives there was addressed to somebody else
         if (!E.s) return "bad-op";
@@ -952,6 +956,15 @@ int main()
         if (a < 0) return "connect-failed";
         ::send(a, d.data(), d.size(), MSG_NOSIGNAL);
         std::this_thread::sleep_for(std::chrono::milliseconds(200));
+        for (int i = 0; i < 40 && E.s->_threadPool.getPendingTaskCount() < minQueued; ++i) std::this_thread::sleep_for(std::chrono::milliseconds(10));
+        std::size_t queuedAtStop = E.s->_threadPool.getPendingTaskCount();
+        std::size_t activeAtStop = E.s->_threadPool.getActiveThreadCount();
+        if (queuedAtStop < minQueued)
+        {
+          ::close(a);
+          return "restart-precondition-failed queued=" + std::to_string(queuedAtStop) + " active=" + std::to_string(activeAtStop);
+        }
+        if (queuedAtStop > 0) bump("e2e:restart-with-queued-request");
         E.s->stop();
         E.s->start();
         E.port = E.s->_transport->getListenerAddress(E.s->_listenerId).port;
